@@ -76,6 +76,9 @@ type recorder struct {
 
 func (r *recorder) see(s *interpreter.State) {
 	r.states++
+	if s != nil && r.badState == "" && len(s.Scripts) == 0 {
+		r.badState = "no scripts at all (an empty State was handed to the callback)"
+	}
 	if s != nil && r.badState == "" && len(s.Scripts) > 0 {
 		switch {
 		case s.ScriptIdx < 0 || s.ScriptIdx >= len(s.Scripts):
